@@ -27,7 +27,8 @@ STAGE_PROPS = {
     "flush": {"C04", "C01"},
 }
 
-RTOL = 1e-11
+RTOL = 1e-11   # relative to the compared value itself
+ATOL = 1e-14   # x magnitude of the operands of the subtractions the value comes from (floating-point dust)
 
 
 def _fr(x):
@@ -100,15 +101,19 @@ def compare_trace(ctx, spec, m, net, label):
         stock_now = genfw.snapshot_stock(m, ti)
         # ---- flows
         first = None
-        # magnitude of what passes through each junction (scale for comparing junction outflows: in - sum(out) cancels)
-        jin = {}
-        for l2, irow2 in enumerate(impl_fl):
-            d2 = net["dst"][l2]
-            if kinds[d2] in "jr":
-                jin[d2] = jin.get(d2, 0.0) + sum(abs(v) for v in irow2 if math.isfinite(v))
+        # Scales.  A value is compared with rtol 1e-11 relative to ITS OWN magnitude plus an absolute allowance of 1e-14 x the
+        # magnitude of the quantities it was computed from by subtraction (x - x*f, in - sum(out)): that is where floating
+        # point leaves dust (a few ulp of the source stock), and dust travels downstream through junctions.
+        lscale = [0.0] * len(mfl)
+        for l in range(len(mfl)):
+            if kinds[net["src"][l]] not in "jr":
+                lscale[l] = max(1.0, sum(abs(v) for v in stock_now[net["src"][l]]))
+        for j in net["jorder"]:
+            sj = sum(lscale[l2] for l2 in range(len(mfl)) if net["dst"][l2] == j)
+            for l in range(len(mfl)):
+                if net["src"][l] == j:
+                    lscale[l] = max(1.0, sj)
         for l, (mrow, irow) in enumerate(zip(mfl, impl_fl)):
-            s = net["src"][l]
-            scale = max(1.0, sum(abs(v) for v in stock_now[s]), jin.get(s, 0.0))
             if net["tlink"][l]:
                 pairs = list(zip(mrow, irow)) if len(mrow) == len(irow) else None
                 if pairs is None:
@@ -117,7 +122,7 @@ def compare_trace(ctx, spec, m, net, label):
             else:
                 pairs = [(sum(mrow, Fraction(0)), irow[0])]
             for r, (mv, iv) in enumerate(pairs):
-                if not core.close(mv, iv, scale=scale, rtol=RTOL):
+                if not core.close(mv, iv, scale=0.0, rtol=RTOL, atol=ATOL * lscale[l]):
                     if first is None:
                         first = (l, f"flow of link {l} ({net['links'][l].id}) row {r} at t index {ti}: model {float(mv)!r} impl {iv!r}")
         if first is not None:
@@ -128,10 +133,9 @@ def compare_trace(ctx, spec, m, net, label):
             for l2, (mrow, irow) in enumerate(zip(mfl, impl_fl)):
                 if kinds[net["src"][l2]] not in "jr":
                     s2 = net["src"][l2]
-                    scale = max(1.0, sum(abs(v) for v in stock_now[s2]))
                     mv = sum(mrow, Fraction(0))
                     iv = sum(irow)
-                    if not core.close(mv, iv, scale=scale, rtol=RTOL):
+                    if not core.close(mv, iv, scale=0.0, rtol=RTOL, atol=ATOL * lscale[l2] * max(1, len(irow))):
                         stage = "resolve-timed" if (kinds[s2] == "t" or kinds[net["dst"][l2]] == "t") else "resolve"
                         break
             breaks.append({"stage": stage, "t": ti, "what": first[1]})
@@ -140,9 +144,9 @@ def compare_trace(ctx, spec, m, net, label):
         if ti + 1 < T:
             nxt = genfw.snapshot_stock(m, ti + 1)
             for c, (mrow, irow) in enumerate(zip(mst, nxt)):
-                scale = max(1.0, sum(abs(v) for v in stock_now[c]), sum(abs(v) for v in irow))
+                cscale = max(1.0, sum(abs(v) for v in stock_now[c])) + sum(lscale[l2] for l2 in range(len(mfl)) if net["dst"][l2] == c)
                 for r, (mv, iv) in enumerate(zip(mrow, irow)):
-                    if not core.close(mv, iv, scale=scale, rtol=RTOL):
+                    if not core.close(mv, iv, scale=0.0, rtol=RTOL, atol=ATOL * cscale):
                         breaks.append({"stage": "update-timed" if kinds[c] == "t" else "update", "t": ti,
                                        "what": f"stock of comp {c} ({net['comps'][c].id}) row {r} at t index {ti + 1}: model {float(mv)!r} impl {iv!r}"})
                         break
